@@ -57,7 +57,7 @@ def random_case(rng, n=None, with_dev=None, target=None, allow_nan=True, degener
     arche = rng.sample(['q_disc', 'q_cont', 'c_cat', 'c_num', 'o_ord', 'q_spike'], rng.choice([2, 3, 3, 4]))
     if variants and rng.random() < 0.5 and 'c_cat' in arche: arche = arche + ['c_cat2']          # a second categorical feature sharing its modality names with the first
     if variants and rng.random() < 0.3: arche = arche + ['c_int']                                                      # a categorical feature stored in an int64 column
-    if degenerate: arche = arche[:2] + [rng.choice(['q_const', 'q_allnan', 'o_many', 'c_id', 'q_unique', 'c_const', 'q_two'])]
+    if degenerate: arche = arche[:2] + [rng.choice(['q_const', 'q_allnan', 'o_many', 'c_id', 'q_unique', 'c_const', 'q_two', 'q_dates', 'q_zero_nan', 'q_dates', 'q_zero_nan'])]
     for a in arche:
         pn = rng.choice([0, 0, 0.08, 0.2])
         if a == 'q_disc':
@@ -79,6 +79,13 @@ def random_case(rng, n=None, with_dev=None, target=None, allow_nan=True, degener
         elif a == 'o_ord':
             rank = ['low', 'mid', 'high', 'top', 'never'][:rng.choice([3, 4, 5])]; k = len(rank) - (1 if rank[-1] == 'never' else 0)
             cols[a] = maybe_nan([rank[min(k - 1, int(l * k + rng.random() * 0.9))] for l in latent], pn); ordinal.append(a); vo[a] = list(rank)
+        elif a == 'q_dates':
+            # dates coded YYYYMMDD / large ids: quantiles that differ only from the 6th-8th significant digit on, with a spike (ties -> rare quantiles that get regrouped)
+            base = rng.choice([20230100.0, 1700000000.0, 1000000.0]); spike = base + rng.choice([1, 15]); step = rng.choice([1.0, 1.0, 0.01])
+            cols[a] = maybe_nan([spike if rng.random() < 0.45 else base + step * (1 + int(l * 27 + rng.random() * 3)) for l in latent], pn); quantitative.append(a)
+        elif a == 'q_zero_nan':
+            # an 'amount' column: a spike on 0.0 that is its own quantile, nothing below it, and missing values that behave like the zeros
+            cols[a] = [np.nan if (l < 0.45 and rng.random() < 0.4 and allow_nan) else 0.0 if l < 0.45 else round(l * 10 + rng.random(), 1) for l in latent]; quantitative.append(a)
         elif a == 'q_const': cols[a] = maybe_nan([3.5] * N, pn); quantitative.append(a)
         elif a == 'q_allnan': cols[a] = [np.nan] * N; quantitative.append(a)
         elif a == 'q_unique': cols[a] = maybe_nan([round(l * 100 + i * 1e-3, 4) for i, l in enumerate(latent)], pn); quantitative.append(a)
@@ -107,6 +114,13 @@ def random_case(rng, n=None, with_dev=None, target=None, allow_nan=True, degener
                 ordinal=ordinal, values_orders=vo, target=target, origin=dict(kind='random', n=n, dev=with_dev))
     if with_dev:
         case['X_dev'] = df.iloc[n:].reset_index(drop=True); case['y_dev'] = y.iloc[n:].reset_index(drop=True)
+        if degenerate and rng.random() < 0.5 and (qualitative or ordinal):
+            # a small development sample in which one modality of the training sample never occurs
+            f = rng.choice(qualitative + ordinal); seen = [v for v in pd.unique(case['X'][f]) if isinstance(v, str)]
+            if seen:
+                v = rng.choice(seen); keep = case['X_dev'][f] != v
+                if keep.sum() >= 12 and (target != 'binary' or case['y_dev'][keep].nunique() == 2):
+                    case['X_dev'] = case['X_dev'][keep].reset_index(drop=True); case['y_dev'] = case['y_dev'][keep].reset_index(drop=True); case['origin']['dev_without'] = [f, v]
     return case
 
 
